@@ -107,7 +107,19 @@ void LabelHandle(tStrComp const* pName, LargeWord Value, Boolean ForceGlobal) {
             return;
         }
 
+        /* The element belongs to the innermost NAMED structure: if the label is
+           written inside unnamed structs/unions, add up their offsets (just like
+           CodeSTRUCT() does for a named structure nested into unnamed ones). */
+
         pLabelElement->Offset = Value;
+        {
+            PStructStack pRun;
+
+            for (pRun = StructStack; pRun && (pRun != pInnermostNamedStruct);
+                 pRun = pRun->Next) {
+                pLabelElement->Offset += pRun->SaveCurrPC;
+            }
+        }
         if (AddStructElem(pInnermostNamedStruct->StructRec, pLabelElement)) {
             AddStructSymbol(pLabelElement->pElemName, Value);
         }
@@ -145,7 +157,7 @@ void LabelHandle(tStrComp const* pName, LargeWord Value, Boolean ForceGlobal) {
 void LabelModify(LargeWord OldValue, LargeWord NewValue) {
     if (OldValue == LabelValue) {
         if (pLabelElement) {
-            pLabelElement->Offset = NewValue;
+            pLabelElement->Offset += NewValue - OldValue;
         }
         if (pLabelEntry) {
             ChangeSymbol(pLabelEntry, NewValue);
